@@ -34,12 +34,24 @@ var c18Frags = []hostileFrag{
 	{"url-relative-http-prefixed-name", "url(httpx.png)", false},
 	{"url-http-without-authority", "url(http:evil.example/x)", false},
 	{"url-http-one-slash", "url(https:/evil.example/x)", false},
+	{"url-fragment-only", "url(#f1)", false},
+	{"url-fragment-only", "url(\"#f1\")", false},
+	{"url-fragment-only", "url('#a-b_c')", false},
+	{"url-empty", "url()", false},
+	{"url-absolute-path", "url(/x.svg#f)", false},
+	{"url-about", "url(about:blank)", false},
+	{"url-blob", "url(blob:https://example.org/1)", false},
 	{"expression", "expression(alert(1))", false},
 	{"javascript-ref", "javascript:alert(1)", true},
 	{"data-ref", "data:text/html,x", true},
 	{"escaped-expression", "\\65 xpression(alert(1))", false},
 	{"backslash", "\\", false},
 	{"hex-escape", "\\3c ", false},
+	{"hex-escape", "\\3c", false},
+	{"hex-escape", "\\201c", false},
+	{"hex-escape", "\\22", false},
+	{"hex-escape", "\\00003c", false},
+	{"hex-escape", "\\a", false},
 	{"angle-lt", "<", false},
 	{"angle-gt", ">", false},
 	{"close-style", "</style>", false},
@@ -273,6 +285,18 @@ func runC18(ctx *core.Ctx) {
 			w["end_to_end_output"] = core.Show(p.Sanitize(in))
 			cs.Violate(sig, fmt.Sprintf("default handler of %q (%s) accepts %q, which contains the hostile fragment %q (%s)", prop, hn, v, f.text, posClass), w)
 		}
+		if shard == 0 {
+			// the fragment as the whole value, and after each keyword-ish single
+			for _, f := range c18Frags {
+				if call(f.text) {
+					report("", f.text, f, "alone")
+				}
+				if call(" " + f.text + " ") {
+					report("", " "+f.text+" ", f, "alone")
+				}
+				lc["fragment_placements"] += 2
+			}
+		}
 		for bi, base := range bases {
 			if bi%shards != shard {
 				continue
@@ -315,6 +339,26 @@ func runC18(ctx *core.Ctx) {
 					if v := base[:p] + f.text + base[p+1:]; call(v) {
 						report(base, v, f, "substituted")
 					}
+				}
+				// quoted strings: the fragment as the whole content of each string in the value
+				for q := 0; q < len(base); q++ {
+					if base[q] != '"' && base[q] != '\'' {
+						continue
+					}
+					e := strings.IndexByte(base[q+1:], base[q])
+					if e < 0 {
+						break
+					}
+					if !(f.ref && inURLSpan(base, q)) {
+						if v := base[:q+1] + f.text + base[q+1+e:]; call(v) {
+							report(base, v, f, "string-content")
+						}
+						if v := base[:q+1] + base[q+1:q+1+e] + f.text + base[q+1+e:]; call(v) {
+							report(base, v, f, "string-content")
+						}
+						lc["fragment_placements"] += 2
+					}
+					q += e + 1
 				}
 				// functional notations: the fragment between the function's opening and a complete second
 				// copy of the value (`f(FRAG f(args)`), and as an extra leading argument
